@@ -888,11 +888,15 @@ func main() {
 		desc = append(desc, fmt.Sprintf("%s: alphabet %v, <= %d txs per block, <= %d blocks and <= %d txs per history", name, B.alpha, B.maxPerBlock, B.maxBlocks, B.maxTxs))
 	}
 	r.Rule = "BFS over histories of blocks on a single-deputy chain; a block is any ordered list of transactions from the scenario's alphabet, built by the real assembler on the head of the node under test and validated by the node's InsertBlock, after a funding+register(C1) prefix block; scenarios: " + strings.Join(desc, " | ") + "; state = (scenario, transactions used, balance/votes/voteFor/candidate profile of every account ever touched); a block with a transaction the assembler discards is not expanded (it equals a shorter list); a state that violates is not expanded; distinct outcome = (verdict, tx kinds of the last block, which tallies moved)"
+	r.Rule = "PHASE 1: " + r.Rule + " || " + rRuleText() + " || " + termRuleText()
 	r.Assume = []string{
-		"heights stay far below params.TermDuration/InterimDuration: unregistering refunds at once (no interim/reward-block refund path)",
+		"phases 1 and R: heights stay far below params.TermDuration/InterimDuration: unregistering refunds at once (the interim / reward-block paths are phase T); single-deputy chain",
+		"phase R: the box time-out (wall clock) is not driven: it ends in the same RevertToSnapshot as a failing sub-transaction; a register / top-up cannot fail after its deposit moved (registerCandidate checks first; modifyCandidateInfo only when the recorded deposit is missing or unparsable, which no transaction brings about)",
+		"phase T: TermDuration 8, InterimDuration 2 (configuration values of the product), two genesis deputies, DeputyCount 2, every block confirmed by both deputies before the next is built (no forks); the miner's post-state is what account.Manager.Save would write (in-memory accounts of the addresses in the block's change logs)",
 		"the accounts of the oracle are all accounts named in any change log of the history plus the fixture accounts; nobody else can be voting",
 		"block times lie in the past of the wall clock; no oracle depends on time",
 	}
+	bnd["phase_R"] = rBounds()
 	r.Extra["bounds"] = bnd
 	// stay inside the tier's wall-clock allowance on a shared machine; a cut run is reported as not exhaustive
 	bfsBudget, termBudget := 4*time.Minute, 3*time.Minute
